@@ -1,6 +1,7 @@
 SPECIFICATION Spec
 CONSTANTS
   Big = TRUE
+  Tiny = FALSE
   Dev = "none"
 INVARIANTS Total Reflexive AntiSym Transitive TransStrict TypeOrder EqSym EqTrans EqImpliesCmp0 ScalarCmp0ImpliesEq ObjCmp0 WellFormed NonVacuous
 CHECK_DEADLOCK FALSE
